@@ -323,3 +323,24 @@ impl Drop for MultiReceiver {
         }
     }
 }
+
+#[cfg(feature = "verif-hooks")]
+impl MultiReceiver {
+    /// Read-only snapshot of every session (verification hook)
+    pub fn verif_snapshot(&self) -> Vec<(ReceiverEndpoint, crate::verif::ReceiverSnapshot)> {
+        let mut out: Vec<(ReceiverEndpoint, crate::verif::ReceiverSnapshot)> = self
+            .alc_receiver
+            .iter()
+            .map(|(k, r)| (k.clone(), r.verif_snapshot()))
+            .collect();
+        out.sort_by(|a, b| {
+            (a.0.tsi, &a.0.endpoint.destination_group_address, a.0.endpoint.port, &a.0.endpoint.source_address).cmp(&(
+                b.0.tsi,
+                &b.0.endpoint.destination_group_address,
+                b.0.endpoint.port,
+                &b.0.endpoint.source_address,
+            ))
+        });
+        out
+    }
+}
